@@ -349,7 +349,21 @@ def emit_fn(spec, mode, probe=False):
     if it.kind != 'fn':
         raise GenError('%s has no body' % spec.name)
     body = it.body
+    mut_self = False
+    if re.search(r'\(\s*mut\s+self\b', mask(sig)):
+        # R13: `mut self` receiver (unsupported by Verus) -> `self` + a mutable local copy used by the body
+        sig = re.sub(r'\(\s*mut\s+self\b', '(self', sig, count=1)
+        mut_self = True
     try:
+        if mut_self:
+            mb0 = mask(body)
+            out_b, last = [], 0
+            for mm in re.finditer(r'(?<![\w.])self\b', mb0):
+                out_b.append(body[last:mm.start()]); out_b.append('__self'); last = mm.end()
+            out_b.append(body[last:])
+            body = ''.join(out_b)
+            body = body[:1] + '\n        let mut __self = self;' + body[1:]
+            rw.log.append(('R13', '`mut self` receiver -> `self` + `let mut __self = self;` (body uses __self)'))
         body = rw.visibility(body)
         body = rw.flatten_paths(body)
         body = rw.asserts(body)
